@@ -127,7 +127,8 @@ Definition senc_r (h : hdr) (s : ist) : res senc * ist :=
     let '(rb, s1) := read_box_body h s in
     (do data <- rb; do v <- senc_body_r h data; Ok (senc_fix v), s1).
 
-(* DecodeSencSR *)
+(* DecodeSencSR (text of b8f1424: the sub-sample test uses the bytes after the fields, nrDataBytes = payloadLen() - 8,
+   and a negative nrDataBytes is an error; the pinned text tested hdr.Size - 16, which is 8 too many behind a 16-byte header) *)
 Definition senc_sr (h : hdr) (sr : rstate) : res (senc * rstate) :=
   if hsize h <? 16 then Err
   else
@@ -137,7 +138,9 @@ Definition senc_sr (h : hdr) (sr : rstate) : res (senc * rstate) :=
     else
       let flags := N.land vf flags_mask in
       do (cnt, sr2) <- read_fixed 4 sr1;
-      if hasf flags 2 && (subu64 (hsize h) 16 <? 2 * cnt) then Err    (* (hdr.Size - 16) < 2*uint64(sampleCount) *)
+      let nr := w64 (payload_len h - 8) in                            (* nrDataBytes := hdr.payloadLen() - 8 *)
+      if (nr <? 0)%Z then Err
+      else if hasf flags 2 && (u64z nr <? 2 * cnt) then Err           (* uint64(nrDataBytes) < 2*uint64(sampleCount) *)
       else
         do (raw, sr3) <- read_bytes (w64 (payload_len h - 8)) sr2;
         if rerr sr3 then Err                                          (* return &senc, sr.AccError() *)
@@ -216,3 +219,164 @@ Definition pair_sr (h : hdr) (s : sst) : res N * sst :=
   else if eqb_name (hname h) name_mdat then wrap_sr mdatv_size (mdat_sr h (sr s)) s
   else std_sr h s.
 Definition pair_leaves : leafdec := mkLD std_kind pair_r pair_sr.
+
+(* ------------------------------------------------------------------ visual sample entry (avc1, avc3, hvc1, hev1, encv, av01, vp08, vp09) *)
+(* children are decoded by DecodeBoxSR on both paths (the reader path first copies the body into a private reader) *)
+Record vse := mkVse { vs_dri : N; vs_width : N; vs_height : N; vs_hres : N; vs_vres : N; vs_frames : N;
+                      vs_cname : list N; vs_kids : list tree }.
+
+Fixpoint sum_sizes (l : list tree) (acc : N) : N :=
+  match l with [] => acc | c :: r => sum_sizes r (addu64 acc (tsize c)) end.
+(* VisualSampleEntryBox.Size(): boxHeaderSize + 78 + the children's Size() (uint64) *)
+Definition vse_size (v : vse) : N := sum_sizes (vs_kids v) 86.
+
+(* the 78 fixed bytes *)
+Definition vse_fixed (r : rstate) : res (vse * rstate) :=
+  let r0 := skip_bytes 6 r in                                   (* sr.SkipBytes(6) *)
+  do (dri, r1) <- read_fixed 2 r0;                              (* DataReferenceIndex = sr.ReadUint16() *)
+  let r2 := skip_bytes 12 (skip_bytes 4 r1) in
+  do (w, r3) <- read_fixed 2 r2;
+  do (hh, r4) <- read_fixed 2 r3;
+  do (hres, r5) <- read_fixed 4 r4;
+  do (vres, r6) <- read_fixed 4 r5;
+  do (_, r7) <- read_fixed 4 r6;                                (* reserved *)
+  do (fc, r8) <- read_fixed 2 r7;
+  do (cnl, r9) <- read_fixed 1 r8;                              (* compressorNameLength := sr.ReadUint8() *)
+  if 31 <? cnl then Err
+  else
+    do (cname, r10) <- read_fixed_string (Z.of_N cnl) r9;
+    let r11 := skip_bytes 2 (skip_bytes (Z.of_N (31 - cnl)) r10) in
+    do (_, r12) <- read_fixed 2 r11;                            (* pre_defined *)
+    Ok (mkVse dri w hh hres vres fc cname [], r12).
+
+(* `for pos < endPos { box, err := DecodeBoxSR(pos, sr); ...; b.AddChild(box); pos += box.Size() }` *)
+Fixpoint vse_kids (ld : leafdec) (fuel : nat) (pos endPos : N) (acc : list tree) (s : sst) : res (list tree) * sst :=
+  match fuel with
+  | O => (OutOfFuel, s)
+  | S f =>
+      if pos <? endPos then
+        match dec_box_sr ld f pos s with
+        | (Ok box, s1) => vse_kids ld f (addu64 pos (tsize box)) endPos (box :: acc) s1
+        | (Err, s1) => (Err, s1) | (Panic, s1) => (Panic, s1) | (OutOfFuel, s1) => (OutOfFuel, s1)
+        end
+      else (Ok (rev acc), s)
+  end.
+
+(* DecodeVisualSampleEntrySR(hdr, startPos, sr) *)
+Definition vse_sr (ld : leafdec) (fuel : nat) (h : hdr) (startPos : N) (s : sst) : res vse * sst :=
+  match vse_fixed (sr s) with
+  | Ok (fx, r1) =>
+      let pos := addu64 startPos 86 in
+      let endPos := addu64 (addu64 startPos (hlen h)) (u64z (payload_len h)) in   (* startPos + uint64(Hdrlen) + uint64(payloadLen()) *)
+      match vse_kids ld fuel pos endPos [] (mkS r1 (scost s)) with
+      | (Ok kids, s2) =>
+          if rerr (sr s2) then (Err, s2)                                          (* return &b, sr.AccError() *)
+          else (Ok (mkVse (vs_dri fx) (vs_width fx) (vs_height fx) (vs_hres fx) (vs_vres fx) (vs_frames fx) (vs_cname fx) kids), s2)
+      | (Err, s2) => (Err, s2) | (Panic, s2) => (Panic, s2) | (OutOfFuel, s2) => (OutOfFuel, s2)
+      end
+  | Err => (Err, s) | Panic => (Panic, s) | OutOfFuel => (OutOfFuel, s)
+  end.
+
+(* DecodeVisualSampleEntry(hdr, startPos, r): readBoxBody, then the SR decoder on bits.NewFixedSliceReader(data) *)
+Definition vse_r (ld : leafdec) (fuel : nat) (h : hdr) (startPos : N) (s : ist) : res vse * ist :=
+  let '(rb, s1) := read_box_body h s in
+  match rb with
+  | Ok data => (fst (vse_sr ld fuel h startPos (mkS (rnew data) (icost s1))), s1)
+  | Err => (Err, s1) | Panic => (Panic, s1) | OutOfFuel => (OutOfFuel, s1)
+  end.
+
+(* ------------------------------------------------------------------ stsd *)
+Record stsd := mkStsd { sd_version : N; sd_flags : N; sd_count : N; sd_kids : list tree }.
+(* StsdBox.Size() = containerSize(s.Children) + 8 *)
+Definition stsd_size (v : stsd) : N := addu64 (sum_sizes (sd_kids v) 8) 8.
+
+Definition stsd_finish (vf cnt : N) (kids : list tree) : res stsd :=
+  if negb (lenN kids =? cnt) then Err                                  (* len(children) != int(sampleCount) *)
+  else if negb (lenN kids mod 4294967296 =? cnt) then Err              (* stsd.SampleCount (uint32, counted by AddChild) != sampleCount *)
+  else Ok (mkStsd (vf / 16777216) (N.land vf flags_mask) (lenN kids mod 4294967296) kids).
+
+(* DecodeStsdSR: ReadUint32 x2, DecodeContainerChildrenSR(hdr, startPos+16, startPos+hdr.Size, sr) *)
+Definition stsd_sr (ld : leafdec) (fuel : nat) (h : hdr) (startPos : N) (s : sst) : res stsd * sst :=
+  match read_fixed 4 (sr s) with
+  | Ok (vf, r1) =>
+      match read_fixed 4 r1 with
+      | Ok (cnt, r2) =>
+          match children_sr ld fuel (addu64 startPos 16) (addu64 startPos 16) (addu64 startPos (hsize h)) (rpos r2) []
+                            (mkS r2 (scost s)) with
+          | (Ok kids, s2) => (stsd_finish vf cnt kids, s2)
+          | (Err, s2) => (Err, s2) | (Panic, s2) => (Panic, s2) | (OutOfFuel, s2) => (OutOfFuel, s2)
+          end
+      | Err => (Err, s) | Panic => (Panic, s) | OutOfFuel => (OutOfFuel, s)
+      end
+  | Err => (Err, s) | Panic => (Panic, s) | OutOfFuel => (OutOfFuel, s)
+  end.
+
+(* DecodeStsd: binary.Read(r, BigEndian, &uint32) x2 (io.ReadFull of 4 bytes), DecodeContainerChildren(hdr, startPos+16, startPos+hdr.Size, r) *)
+Definition stsd_r (ld : leafdec) (fuel : nat) (h : hdr) (startPos : N) (s : ist) : res stsd * ist :=
+  match read_full 4 s with
+  | (RFOk b1, s1) =>
+      match read_full 4 s1 with
+      | (RFOk b2, s2) =>
+          match children_r ld fuel (addu64 startPos 16) (addu64 startPos (hsize h)) [] s2 with
+          | (Ok kids, s3) => (stsd_finish (be b1 0) (be b2 0) kids, s3)
+          | (Err, s3) => (Err, s3) | (Panic, s3) => (Panic, s3) | (OutOfFuel, s3) => (OutOfFuel, s3)
+          end
+      | (_, s2) => (Err, s2)
+      end
+  | (_, s1) => (Err, s1)
+  end.
+
+(* ------------------------------------------------------------------ the dispatch tower: stsd over sample entries over the pair leaves *)
+Definition is_vse_name (nm : list N) : bool :=
+  existsb (eqb_name nm)
+    [[97;118;99;49]; [97;118;99;51]; [104;118;99;49]; [104;101;118;49]; [101;110;99;118]; [97;118;48;49]; [118;112;48;56]; [118;112;48;57]].
+Definition name_stsd : list N := [115; 116; 115; 100].
+Definition name_avc1 : list N := [97; 118; 99; 49].
+
+(* children of a sample entry: pair_leaves; startPos 0: only differences of positions are used (no uint64 wrap below 2^63) *)
+Definition entry_r (h : hdr) (s : ist) : res N * ist :=
+  if is_vse_name (hname h) then wrap_r vse_size (vse_r pair_leaves (S (length (ibuf s))) h 0 s)
+  else pair_r h s.
+Definition entry_sr (h : hdr) (s : sst) : res N * sst :=
+  if is_vse_name (hname h) then
+    (let '(r, s2) := vse_sr pair_leaves (S (length (rbuf (sr s)))) h 0 s in (do v <- r; Ok (vse_size v), mkS (sr s2) (scost s)))
+  else pair_sr h s.
+Definition entry_leaves : leafdec := mkLD std_kind entry_r entry_sr.
+
+Definition top_r (h : hdr) (s : ist) : res N * ist :=
+  if eqb_name (hname h) name_stsd then wrap_r stsd_size (stsd_r entry_leaves (S (length (ibuf s))) h 0 s)
+  else entry_r h s.
+Definition top_sr (h : hdr) (s : sst) : res N * sst :=
+  if eqb_name (hname h) name_stsd then
+    (let '(r, s2) := stsd_sr entry_leaves (S (length (rbuf (sr s)))) h 0 s in (do v <- r; Ok (stsd_size v), mkS (sr s2) (scost s)))
+  else entry_sr h s.
+Definition top_leaves : leafdec := mkLD std_kind top_r top_sr.
+
+(* one stsd / sample entry box through DecodeBox / DecodeBoxSR with its decoded fields (correspondence) *)
+Inductive entval := EVse (v : vse) | EStsd (v : stsd).
+Definition entval_size (v : entval) : N := match v with EVse x => vse_size x | EStsd x => stsd_size x end.
+
+Definition entbox_r (bs : list N) : res (entval * N) :=
+  match decode_header (inew bs) with
+  | (Ok (HHdr h), s1) =>
+      if eqb_name (hname h) name_stsd then
+        (let '(r, s2) := stsd_r entry_leaves (S (length bs)) h 0 s1 in do v <- r; Ok (EStsd v, ipos s2))
+      else if is_vse_name (hname h) then
+        (let '(r, s2) := vse_r pair_leaves (S (length bs)) h 0 s1 in do v <- r; Ok (EVse v, ipos s2))
+      else Err
+  | (Ok HEof, _) => Err
+  | (Err, _) => Err | (Panic, _) => Panic | (OutOfFuel, _) => OutOfFuel
+  end.
+
+Definition entbox_sr (bs : list N) : res (entval * Z * bool) :=
+  match decode_header_sr (snew bs) with
+  | (Ok h, s1) =>
+      let maxSize := addu64 (u64z (nr_remaining (sr s1))) (hlen h) in
+      if (maxSize <? hsize h) then Err
+      else if eqb_name (hname h) name_stsd then
+        (let '(r, s2) := stsd_sr entry_leaves (S (length bs)) h 0 s1 in do v <- r; Ok (EStsd v, rpos (sr s2), rerr (sr s2)))
+      else if is_vse_name (hname h) then
+        (let '(r, s2) := vse_sr pair_leaves (S (length bs)) h 0 s1 in do v <- r; Ok (EVse v, rpos (sr s2), rerr (sr s2)))
+      else Err
+  | (Err, _) => Err | (Panic, _) => Panic | (OutOfFuel, _) => OutOfFuel
+  end.
